@@ -89,12 +89,16 @@ METHOD_NAMES = {0: 'JW', 1: 'NC', 2: 'PK', 3: 'OOB', 4: 'CTKD'}
 
 
 class UserGate:
-    """The moment a user reacts to a prompt is an event of its own channel ('user', side), so that the
-    schedule explorer can delay it behind protocol messages (a slow user); stock order = one loop hop."""
+    """Every scripted delegate coroutine really suspends here, and the moment the user / UI reacts is an event
+    of its own channel ('user', side).
+      instant: the reaction is one loop hop away (the schedule explorer can still delay it behind messages);
+      slow   : the reaction comes only when nothing else in the whole system is runnable (oldest prompt first)."""
 
-    def __init__(self, loop, side):
+    def __init__(self, loop, side, mode, pending):
         self.loop = loop
         self.side = side
+        self.mode = mode
+        self.pending = pending  # shared, ordered list of (gate, future) of slow users
 
     def answer(self, fut):
         if not fut.done():
@@ -102,14 +106,18 @@ class UserGate:
 
     async def wait(self):
         fut = self.loop.create_future()
-        self.loop.call_soon(self.answer, fut)
+        if self.mode == 'slow':
+            self.pending.append((self, fut))
+        else:
+            self.loop.call_soon(self.answer, fut)
         await fut
 
 
 class Shared:
-    def __init__(self, loop):
+    def __init__(self, loop, speed=('instant', 'instant')):
         self.displayed = {'i': loop.create_future(), 'r': loop.create_future()}
-        self.gate = {'i': UserGate(loop, 'i'), 'r': UserGate(loop, 'r')}
+        self.pending = []
+        self.gate = {'i': UserGate(loop, 'i', speed[0], self.pending), 'r': UserGate(loop, 'r', speed[1], self.pending)}
         base = loop.classify
 
         def classify(handle):
@@ -119,6 +127,14 @@ class Shared:
             return base(handle)
 
         loop.classify = classify
+
+    def release_one(self):
+        """Nothing else is runnable: the slow user who has been waiting longest reacts now."""
+        if not self.pending:
+            return False
+        g, fut = self.pending.pop(0)
+        g.loop.call_soon(g.answer, fut)
+        return True
 
 
 def make_delegate(which, cfg, answers, shared, peer_io, log):
@@ -152,9 +168,10 @@ def make_delegate(which, cfg, answers, shared, peer_io, log):
         async def get_number(self):
             a = answers.get('number', 'right')
             log.append(('input', a))
-            if a == 'none':
+            if a in ('none', 'zero', 'max'):
+                # a user who does not look at the peer's display: declines, or types 000000 / 999999 at once
                 await gate.wait()
-                return None
+                return {'none': None, 'zero': 0, 'max': 999999}[a]
             # the user reads the number off the peer's display; when both devices only have a
             # keyboard the two users have agreed on a number beforehand
             if IO_NAMES[cfg['io']] == KO and IO_NAMES[peer_io] == KO:
@@ -166,10 +183,26 @@ def make_delegate(which, cfg, answers, shared, peer_io, log):
                 n ^= 1 << int(a[5:])
             return n
 
+        async def get_string(self, max_length):
+            await gate.wait()
+            log.append(('string',))
+            return None
+
         async def display_number(self, number, digits):
+            await gate.wait()
             log.append(('display', number))
             if not shared.displayed[which].done():
                 shared.displayed[which].set_result(number)
+
+        async def generate_passkey(self):
+            await gate.wait()  # producing / rendering the passkey takes the UI a moment
+            n = await super().generate_passkey()
+            log.append(('generate', n))
+            return n
+
+        async def key_distribution_response(self, peer_initiator_key_distribution, peer_responder_key_distribution):
+            await gate.wait()
+            return await super().key_distribution_response(peer_initiator_key_distribution, peer_responder_key_distribution)
 
     return Scripted(
         PairingDelegate.IoCapability(cfg['io']),
@@ -269,7 +302,7 @@ def _execute(w, case, prefix, fp, explore_sched, out):
     dev_i, dev_r = w.devices[0], w.devices[1]  # device 0 = central = SMP initiator
     dev_i.irk = bytes([0xA0 + n for n in range(16)])
     dev_r.irk = bytes([0xB0 + n for n in range(16)])
-    shared = Shared(loop)
+    shared = Shared(loop, tuple(case.get('speed') or ('instant', 'instant')))
     ulog = {'i': [], 'r': []}
     idtype = {'random': PairingConfig.AddressType.RANDOM, 'public': PairingConfig.AddressType.PUBLIC, 'default': None}[
         addr
@@ -384,10 +417,25 @@ def _execute(w, case, prefix, fp, explore_sched, out):
         return bool(tasks) and tasks[0].done() and bool(events['i']) and bool(events['r'])
 
     hang = False
+    horizon = loop.time() + 120.0
+
+    def pump(pred, timers=True):
+        """Step until pred(); when nothing at all is runnable a slow user reacts; then (optionally) timers."""
+        n = 0
+        while not pred():
+            if loop.step(horizon, False) or shared.release_one() or (timers and loop.step(horizon, True)):
+                n += 1
+                if n > 400000:
+                    raise StepBudgetExceeded('400000 steps')
+                continue
+            return False
+        return True
+
     try:
-        if not loop.run_until(concluded, horizon=loop.time() + 120.0, max_steps=400000):
+        if not pump(concluded):
             hang = True
-        loop.run_quiescent(max_steps=400000)
+        # late reactions of users who were still being asked must not change anything either
+        pump(lambda: False, timers=False)
     except StepBudgetExceeded as e:
         out['harness_error'] = f'step budget: {e}'
     if sched:
